@@ -324,6 +324,18 @@ def k_depnames(c):
     return f'depnames {flags}|{fld}', enc_list(out), {'first': out, 'again': [d.name for d in build()]}
 
 
+def k_depfile(c):
+    """real DepFile (parse + dict of Target(deps=set)) and get_all_dependencies; the model is asked about the
+    dict / set iteration orders this process observes"""
+    from mesonbuild.depfile import DepFile
+    df = DepFile(c['lines'])
+    out = df.get_all_dependencies(c['name'])
+    keys = list(df.depfile)
+    deps = [list(df.depfile[k].deps) for k in keys]
+    line = f'depfile {enc_list(keys)}|{";".join(enc_list(d) for d in deps)}|{enc(c["name"])}'
+    return line, enc_list(out) + '#' + enc_list(out), out
+
+
 def k_excludes(c):
     from mesonbuild import mintro
     from mesonbuild.backend.backends import SubdirInstallData
